@@ -322,7 +322,10 @@ def r05_5(ck, F):
     rej = [bb for bb, t in k.calls("chmux::listener::Request::reject")]
     conn = [a for a in k.awaits() if "client::Connect" in (a.get("fut_ty") or "") or "client::Connect" in (a.get("fut_fn") or "")]
     if not conn:
-        raise mir.AnchorMissing("await of the outgoing Connect in the forward task")
+        ck.bad("forward#accept-after-connect", "chmux::forward: the per-request task calls Request::accept_from but does not await the "
+               "outgoing Connect on its own before it (e.g. both are polled together): the incoming request is accepted regardless "
+               "of the final endpoint's answer, a rejection is not relayed", k.loc(acc[0]) if acc else k.loc(0))
+        return
     a = conn[0]
     edges = outcome_edges(k, None, lambda x: any(isinstance(w, tuple) and w and w[0] == "await" and w[2] == a["poll_bb"] for w in mir.walk(x)))
     ok_t = [tb for sb, tb, m, e in edges if m == "Ok"]
